@@ -42,34 +42,13 @@ func TestC01PreOak(t *testing.T) {
 			shapes = append(shapes, shape{oak: oak + 200, forkAt: oak - 2, lenA: 5, lenB: 7, dts: [3]int{2, 1, 2}, dtA: 1, dtB: 3, hard: 1})
 		}
 	}
-	for _, sh := range shapes {
-		tc := kit.TreeCase{Net: kit.NetSpec{Maturity: 2, Allow: sh.oak + 400, ReqOff: 10, CutOff: 10, Hard: sh.hard, Oak: sh.oak}}
-		for i := 0; i < sh.forkAt; i++ {
-			bs := kit.BlockSpec{Dt: sh.dts[min(i/500, 2)], Miner: i % 4}
-			if i%97 == 5 {
-				bs.Txs = []kit.Intent{{Kind: "pay", Who: i % 4, To: (i + 1) % 4, Pick: i, Amt: 3}}
-			}
-			tc.Blocks = append(tc.Blocks, bs)
+	for si, sh := range shapes {
+		if !kit.MyShard(si) {
+			continue
 		}
-		trunk := len(tc.Blocks)
-		for i := 0; i < sh.lenA; i++ {
-			tc.Blocks = append(tc.Blocks, kit.BlockSpec{Dt: sh.dtA, Miner: 1})
-		}
-		for i := 0; i < sh.lenB; i++ {
-			bs := kit.BlockSpec{Dt: sh.dtB, Miner: 2}
-			if i == 0 {
-				bs.Back = sh.lenA
-			}
-			tc.Blocks = append(tc.Blocks, bs)
-		}
-		seq := func(a, b int) []int {
-			var out []int
-			for i := a; i < b; i++ {
-				out = append(out, i)
-			}
-			return out
-		}
+		tc, trunk := preOakTree(sh.oak, sh.forkAt, sh.lenA, sh.lenB, sh.dts, sh.dtA, sh.dtB, sh.hard)
 		c := C01Case{Tree: tc, Backend: sh.oak / 500 % 3}
+		seq := seqInts
 		c.Steps = append(c.Steps, kit.SubmitStep{Batch: seq(0, trunk)})
 		c.Steps = append(c.Steps, kit.SubmitStep{Batch: seq(trunk, trunk+sh.lenA)})
 		// the competing branch block by block (side-chain ancestors are walked), then at once
@@ -84,6 +63,100 @@ func TestC01PreOak(t *testing.T) {
 		cs.NonTrivial()
 		if err != nil {
 			err = fmt.Errorf("pre-Oak family (Oak hardfork at %d, fork at height %d, branches %d/%d blocks, block times %v/%d/%d s): %w", sh.oak, sh.forkAt, sh.lenA, sh.lenB, sh.dts, sh.dtA, sh.dtB, err)
+		}
+		d.Case(c, cs, err)
+	}
+}
+
+func seqInts(a, b int) []int {
+	var out []int
+	for i := a; i < b; i++ {
+		out = append(out, i)
+	}
+	return out
+}
+
+// preOakTree: trunk of forkAt blocks (block time per 500-block window from
+// dts, a payment now and then), then branch A (lenA blocks, block time dtA)
+// and branch B (lenB blocks, dtB) on top of the trunk.
+func preOakTree(oak, forkAt, lenA, lenB int, dts [3]int, dtA, dtB, hard int) (kit.TreeCase, int) {
+	tc := kit.TreeCase{Net: kit.NetSpec{Maturity: 2, Allow: oak + 400, ReqOff: 10, CutOff: 10, Hard: hard, Oak: oak}}
+	for i := 0; i < forkAt; i++ {
+		bs := kit.BlockSpec{Dt: dts[min(i/500, 2)], Miner: i % 4}
+		if i%97 == 5 {
+			bs.Txs = []kit.Intent{{Kind: "pay", Who: i % 4, To: (i + 1) % 4, Pick: i, Amt: 3}}
+		}
+		tc.Blocks = append(tc.Blocks, bs)
+	}
+	trunk := len(tc.Blocks)
+	for i := 0; i < lenA; i++ {
+		tc.Blocks = append(tc.Blocks, kit.BlockSpec{Dt: dtA, Miner: 1})
+	}
+	for i := 0; i < lenB; i++ {
+		bs := kit.BlockSpec{Dt: dtB, Miner: 2}
+		if i == 0 {
+			bs.Back = lenA
+		}
+		tc.Blocks = append(tc.Blocks, bs)
+	}
+	return tc, trunk
+}
+
+// TestC04PreOak: subscribers (from nothing, and joining on the first branch)
+// poll across the pre-Oak adjustment height and the reorg between the two
+// branches; every update's state and diffs are folded and compared with the
+// reference ledger as in TestC04 (UpdatesSince re-applies blocks with the
+// store's ancestor timestamps).
+func TestC04PreOak(t *testing.T) {
+	d := kit.NewDirect(t, "C04", "pre-Oak family: Oak hardfork at 500 (branches crossing it) and at 1200 (branches crossing the adjustment height 1000); one subscriber from nothing polling in chunks of 7 / 1000, one joining on the first branch and left behind across the reorg; same oracle as TestC04")
+	defer d.Done()
+	for _, sh := range []struct{ oak, forkAt int }{{500, 497}, {1200, 998}} {
+		if sh.oak > 500 && !kit.Thorough() {
+			continue
+		}
+		tc, trunk := preOakTree(sh.oak, sh.forkAt, 5, 7, [3]int{2, 1, 2}, 1, 3, 1)
+		sub := func(b []int) *kit.SubmitStep { return &kit.SubmitStep{Batch: b} }
+		c := C04Case{Tree: tc, Subs: 1}
+		c.Steps = append(c.Steps, C04Step{Submit: sub(seqInts(0, trunk))})
+		c.Steps = append(c.Steps, C04Step{Poll: &PollStep{Sub: 0, Max: 1000}})
+		c.Steps = append(c.Steps, C04Step{Submit: sub(seqInts(trunk, trunk+5))})
+		c.Steps = append(c.Steps, C04Step{Join: true})
+		c.Steps = append(c.Steps, C04Step{Poll: &PollStep{Sub: 0, Max: 3}})
+		c.Steps = append(c.Steps, C04Step{Submit: sub(seqInts(trunk+5, len(tc.Blocks)))})
+		for k := 0; k < 4; k++ {
+			c.Steps = append(c.Steps, C04Step{Poll: &PollStep{Sub: k % 2, Max: 7}})
+		}
+		cs := &kit.CaseStats{}
+		err := runC04(c, cs)
+		cs.Classf("pre-oak:oak=%d", sh.oak)
+		cs.NonTrivial()
+		if err != nil {
+			err = fmt.Errorf("pre-Oak family (Oak hardfork at %d, fork at height %d): %w", sh.oak, sh.forkAt, err)
+		}
+		d.Case(c, cs, err)
+	}
+}
+
+// TestC03PreOak: durable commit points of a history that crosses the pre-Oak
+// adjustment / hardfork height on two branches (flushes injected inside the
+// reorg), reopened and caught up as in TestC03.
+func TestC03PreOak(t *testing.T) {
+	d := kit.NewDirect(t, "C03", "pre-Oak family: Oak hardfork at 500, two branches crossing it, flushes injected after store operations inside the reorg; same oracle as TestC03")
+	defer d.Done()
+	for _, inner := range []int{0, 1} {
+		tc, trunk := preOakTree(500, 496, 5, 8, [3]int{1, 2, 1}, 3, 1, 1)
+		c := C03Case{Tree: tc, Inner: inner}
+		c.Steps = append(c.Steps, kit.SubmitStep{Batch: seqInts(0, trunk)})
+		c.Steps = append(c.Steps, kit.SubmitStep{Batch: seqInts(trunk, trunk+5)})
+		c.Steps = append(c.Steps, kit.SubmitStep{Batch: seqInts(trunk+5, len(tc.Blocks))})
+		for k := 0; k < 6; k++ {
+			c.FlushAt = append(c.FlushAt, trunk+5+2*k+inner)
+		}
+		cs := &kit.CaseStats{}
+		err := runC03(c, cs)
+		cs.Class("pre-oak:oak=500")
+		if err != nil {
+			err = fmt.Errorf("pre-Oak family (Oak hardfork at 500, fork at height 496, inner backend %d): %w", inner, err)
 		}
 		d.Case(c, cs, err)
 	}
